@@ -17,7 +17,7 @@ CONSTANTS MaxSteps,      \* ring: length of request sequences
           TruncNs, TruncKCs, TruncNL
 VARIABLES st, obs, last, steps, bad
 vars == <<st, obs, last, steps, bad>>
-Inits == { <<1>>, <<2, 1>>, <<1, 2, 3>> }      \* ring: initial keyrings (what the operator's file lists at start)
+Inits == { <<1>>, <<2, 1>>, <<1, 2, 3>>, <<3, 1>> }      \* ring: initial keyrings (what the operator's file lists at start)
 
 ------------------------------------------------------------------------------
 \* the first step is the start of the node: the agent loads the operator's keyring file
@@ -29,14 +29,15 @@ RingNext ==
               /\ st' = KR(r, r) /\ obs' = KObs(KR(r, r), TRUE, FALSE)
               /\ last' = [a |-> "kinit", init |-> r] /\ steps' = 1
               /\ bad' = C22Clauses(KObs(KR(r, r), TRUE, FALSE), KObs(KR(r, r), TRUE, FALSE))
-       ELSE \E op \in {"install", "use", "remove"}, k \in KeyArgs :
-              LET r == KApply(st, op, k)
-                  o == KObs(r.s, r.ok, r.s.file # st.file) IN
-              /\ st' = r.s
-              /\ obs' = o
-              /\ last' = [a |-> "kop", op |-> op, k |-> k]
-              /\ steps' = steps + 1
-              /\ bad' = bad \cup C22Clauses(obs, o)
+       ELSE \E op \in {"install", "use", "remove", "list"}, k \in KeyArgs \cup {0} :
+              /\ (op = "list") = (k = 0)
+              /\ LET r == KApply(st, op, k)
+                     o == KObs(r.s, r.ok, r.s.file # st.file) IN
+                 /\ st' = r.s
+                 /\ obs' = o
+                 /\ last' = [a |-> "kop", op |-> op, k |-> k]
+                 /\ steps' = steps + 1
+                 /\ bad' = bad \cup C22Clauses(obs, o) \cup C22ListClauses(op, obs, o)
 
 ------------------------------------------------------------------------------
 Variant(kind, keys, pk) == [kind |-> kind, keys |-> keys, pk |-> pk]
